@@ -540,10 +540,13 @@ def charset_cases(tier):
     another type) x content (ASCII, valid UTF-8 that reads differently as Latin-1, a byte that is not UTF-8, empty)
     x MultipartParseOptions.default_charset (unset, iso-8859-1, ascii, utf-16, an unknown name) x get_text / get_data,
     with the text part first, last or alone in the form."""
+    # 'undefined', 'punycode' and 'idna' are registered Python codecs whose decode errors are plain UnicodeError /
+    # ValueError subclasses other than UnicodeDecodeError
     ctypes = [None, ['text/plain', None], ['text/plain', 'utf-8'], ['text/plain', 'iso-8859-1'], ['text/plain', 'bogus-cs'],
-              ['application/octet-stream', None]]
-    contents = [b'abc', b'caf\xc3\xa9', b'\xe9', b'']
-    defaults = [None, 'iso-8859-1', 'ascii', 'utf-16', 'no-such-charset']
+              ['application/octet-stream', None], ['text/plain', 'undefined'], ['text/plain', 'punycode'], ['text/plain', 'idna'],
+              ['text/plain', 'utf-16']]
+    contents = [b'abc', b'caf\xc3\xa9', b'\xe9', b'', b'~~~', b'a..b']
+    defaults = [None, 'iso-8859-1', 'ascii', 'utf-16', 'no-such-charset', 'undefined']
     tr = {'short': [0], 'events': [7], 'preload': False, 'asgi_cl': True, 'cs': 9, 'pieces': [3, 11]}
     for ct in ctypes:
         for content in contents:
